@@ -160,6 +160,9 @@ def cases(c):
             cc = draw_c(rng, cplx, i)
             dcl = {'form': 'class', 'cls': cls, 'cplx': cplx, 'N': N, 'kind': gen.pick(rng, kinds_for(cls)),
                    'reuse': ((j // 3) % 4) if j % 3 == 1 else None,
+                   # every 6th class case: x and c*x are produced one after the other in the caller's own work
+                   # buffer (buf *= c) and the two lazily evaluated objects are read afterwards
+                   'workbuf': j % 6 == 2,
                    'p': params, 'NFFT': NFFT, 'fs': gen.pick(rng, [1.0, 2.0, 1000.0]),
                    'c': [float(np.real(cc)), float(np.imag(cc))], 'j': j}
             if cplx and j % 5 == 0:
@@ -232,9 +235,11 @@ def run_function(fn, p, x):
     raise ValueError(fn)
 
 
-def run_class(cls, p, x, NFFT, fs, reuse=None, obj=None):
+def run_class(cls, p, x, NFFT, fs, reuse=None, obj=None, prebuilt=None):
     del _nsig_seen[:]
-    if obj is not None:
+    if prebuilt is not None:
+        obj = prebuilt
+    elif obj is not None:
         obj.data = np.array(x, copy=True)        # the very object that estimated x now gets c*x
     elif reuse is not None:
         obj = E.build_reused(cls, p, x, NFFT=NFFT, fs=fs, scale=False, salt=reuse)
@@ -296,13 +301,26 @@ def run_case(c, d):
              'complex_c': bool(cplx and abs(np.imag(cc)) > 0)}
     log = []            # the event log of this group
 
+    prebuilt = {}
+    if d['form'] == 'class' and d.get('workbuf'):
+        try:
+            buf = np.array(x, copy=True)
+            prebuilt['x'] = E.build(d['cls'], d['p'], buf, NFFT=d['NFFT'], fs=d['fs'], scale=False)
+            buf *= cc                      # the caller recycles its buffer; the first object has not been read yet
+            prebuilt['c*x'] = E.build(d['cls'], d['p'], buf, NFFT=d['NFFT'], fs=d['fs'], scale=False)
+            feats = dict(feats, caller_recycles_its_buffer=True)
+        except Exception as exc:
+            c.exception('scale', exc, feats)
+            return
+
     def execute(role, data):
         try:
             if d['form'] == 'function':
                 out = run_function(d['fn'], d['p'], data)
             else:
                 same = log[0]['obj'] if (role == 'c*x' and d.get('reuse') == 0 and log and log[0].get('obj') is not None) else None
-                out = run_class(d['cls'], d['p'], data, d['NFFT'], d['fs'], reuse=d.get('reuse'), obj=same)
+                out = run_class(d['cls'], d['p'], data, d['NFFT'], d['fs'], reuse=d.get('reuse'), obj=same,
+                                prebuilt=prebuilt.get(role))
             obj = out.pop('__obj__', (None, None))[0] if isinstance(out, dict) else None
             log.append({'role': role, 'outputs': out, 'error': None, 'obj': obj})
         except Exception as exc:
